@@ -14,15 +14,15 @@ Definition accepted (r : res' ns) : Prop := exists n, r = Ret n.
 
 Record sub_spec (sub : subparser) : Prop := {
   (* "a parser accepts an option iff it was added to it" *)
-  ss_flag : forall nl F P o,
+  ss_flag : forall nl F P V o,
       mem (flag_str o) (std_option_strings nl) = false -> ~ In ch_eq o ->
-      (sub nl F P [flag_str o] <> None <-> In o F);
-  ss_color : forall nl F P,
-      sub nl F P [opt_color] <> None /\ sub nl F P [opt_no_color] <> None /\
-      forall v, In v color_choices -> sub nl F P [opt_color ++ ch_eq :: v] <> None;
-  ss_verbose : forall F P,
-      sub false F P [opt_verbose_short] <> None /\ sub false F P [opt_verbose_long] <> None;
-  ss_empty : forall nl F P, sub nl F P [] <> None
+      (sub nl F P V [flag_str o] <> None <-> In o F);
+  ss_color : forall nl F P V,
+      sub nl F P V [opt_color] <> None /\ sub nl F P V [opt_no_color] <> None /\
+      forall v, In v color_choices -> sub nl F P V [opt_color ++ ch_eq :: v] <> None;
+  ss_verbose : forall F P V,
+      sub false F P V [opt_verbose_short] <> None /\ sub false F P V [opt_verbose_long] <> None;
+  ss_empty : forall nl F P V, sub nl F P V [] <> None
 }.
 
 (* ------------------------------------------------------------------ *)
@@ -31,7 +31,7 @@ Record sub_spec (sub : subparser) : Prop := {
 Lemma parse_args_command sub c0 (st : state) dflt c rest pa :
   starts_dash c = false -> lookup c st = Some pa -> p_internal pa = false ->
   parse_args sub c0 st dflt (c :: rest) =
-  match sub (c_no_log c0) (p_flags pa) (p_poss pa) rest with
+  match sub (c_no_log c0) (p_flags pa) (p_poss pa) (p_vals pa) rest with
   | Some s => Ret (finish c0 c s)
   | None => Raise SystemExit
   end.
@@ -45,10 +45,10 @@ Qed.
 Lemma accepted_command sub c0 (st : state) dflt c rest pa :
   starts_dash c = false -> lookup c st = Some pa -> p_internal pa = false ->
   (accepted (parse_args sub c0 st dflt (c :: rest)) <->
-   sub (c_no_log c0) (p_flags pa) (p_poss pa) rest <> None).
+   sub (c_no_log c0) (p_flags pa) (p_poss pa) (p_vals pa) rest <> None).
 Proof.
   intros Hd L Hi. rewrite (parse_args_command sub c0 st dflt c rest pa Hd L Hi).
-  destruct (sub (c_no_log c0) (p_flags pa) (p_poss pa) rest) as [s|].
+  destruct (sub (c_no_log c0) (p_flags pa) (p_poss pa) (p_vals pa) rest) as [s|].
   - split; [discriminate|]. intros _. eexists. reflexivity.
   - split; [intros (n & E); discriminate|congruence].
 Qed.
@@ -58,7 +58,7 @@ Lemma command_of_accepted sub c0 (st : state) dflt c rest pa n :
   parse_args sub c0 st dflt (c :: rest) = Ret n -> ns_command n = c.
 Proof.
   intros Hd L Hi. rewrite (parse_args_command sub c0 st dflt c rest pa Hd L Hi).
-  destruct (sub _ _ _ rest); [|discriminate]. intros [= <-]. reflexivity.
+  destruct (sub _ _ _ _ rest); [|discriminate]. intros [= <-]. reflexivity.
 Qed.
 
 Lemma NoDup_map_inj {A B} (f : A -> B) l a b :
@@ -79,7 +79,7 @@ Lemma configured_command ds nl ops st' d :
   configured ds nl ops st' -> In d ds -> d_internal d = false ->
   exists pa, lookup (d_name d) st' = Some pa /\ p_internal pa = false /\
     forall t k o, In (t, k, o) ops ->
-      (In o (match k with KFlag => p_flags pa | KPos => p_poss pa end) <-> in_scope ds t (d_name d)).
+      (In o (p_list k pa) <-> in_scope ds t (d_name d)).
 Proof.
   intros (st & B & OK & A) Hd Hi.
   destruct (option_scope_state_l ds st nl ops B OK) as (st2 & A2 & K & S).
@@ -107,7 +107,7 @@ Proof.
   destruct C as (st & _ & (_ & F) & _).
   assert (mem (flag_str o) (std_option_strings (c_no_log c0)) = false) as Hstd.
   { rewrite Forall_forall in F. destruct (F _ Ho) as (_ & H). apply H. reflexivity. }
-  rewrite (ss_flag sub SS _ _ _ o Hstd Heq). apply (Sc t KFlag o Ho).
+  rewrite (ss_flag sub SS _ _ _ _ o Hstd Heq). apply (Sc t KFlag o Ho).
 Qed.
 
 Lemma std_options_l sub : sub_spec sub ->
@@ -125,12 +125,12 @@ Proof.
   intros SS ds c0 ops st' dflt d C Hd Hi Hdash.
   destruct (configured_command ds _ ops st' d C Hd Hi) as (pa & L & Pi & _).
   pose proof (fun rest => accepted_command sub c0 st' dflt _ rest pa Hdash L Pi) as AC.
-  destruct (ss_color sub SS (c_no_log c0) (p_flags pa) (p_poss pa)) as (C1 & C2 & C3).
+  destruct (ss_color sub SS (c_no_log c0) (p_flags pa) (p_poss pa) (p_vals pa)) as (C1 & C2 & C3).
   split; [apply AC; apply (ss_empty sub SS)|].
   split; [apply AC; exact C1|]. split; [apply AC; exact C2|].
   split; [intros v Hv; apply AC; apply C3; exact Hv|].
   intros Hnl. rewrite Hnl in *.
-  destruct (ss_verbose sub SS (p_flags pa) (p_poss pa)) as (V1 & V2).
+  destruct (ss_verbose sub SS (p_flags pa) (p_poss pa) (p_vals pa)) as (V1 & V2).
   split; apply AC; assumption.
 Qed.
 
@@ -171,7 +171,7 @@ Lemma default_command_subparse_l sub c0 (st : state) d argv pa :
   (forall a, hd_error argv = Some a -> ~ In a help_choices /\ ~ In a (keys st)) ->
   starts_dash d = false -> lookup d st = Some pa -> p_internal pa = false ->
   parse_args sub c0 st (Some d) argv =
-  match sub (c_no_log c0) (p_flags pa) (p_poss pa) argv with
+  match sub (c_no_log c0) (p_flags pa) (p_poss pa) (p_vals pa) argv with
   | Some s => Ret (finish c0 d s)
   | None => Raise SystemExit
   end.
@@ -236,17 +236,41 @@ Proof.
   unfold std_option_strings. destruct nl; cbn [app In]; repeat split; auto 10. discriminate.
 Qed.
 
-Definition acc0 : acc := mkAcc 0 (CStr color_default) false false [] [] BNone.
+Definition acc0 : acc := mkAcc 0 (CStr color_default) false false [] [] BNone [].
 
-Lemma mini_go_flag nl F P o a :
-  mem (flag_str o) (std_option_strings nl) = false -> ~ In ch_eq o ->
-  mini_go nl F P [flag_str o] a <> None <-> In o F.
+(* a flag name that add_argument accepts: not a standard option string, no '=' *)
+Definition user_flag (nl : bool) (o : str) : Prop :=
+  mem (flag_str o) (std_option_strings nl) = false /\ ~ In ch_eq o.
+
+Definition push_flag (o : str) (a : acc) : acc :=
+  mkAcc (a_verbose a) (a_color a) (a_seen_color a) (a_no_color a) (o :: a_set a) (a_words a)
+        (match a_blk a with BOpen => BClosed | b => b end) (a_given a).
+
+Lemma split_first_absent sep s : ~ In sep s -> split_first sep s = None.
 Proof.
-  intros Hstd Heq.
+  induction s as [|c r IH]; intros H; cbn [split_first]; [reflexivity|].
+  destruct (Z.eqb_spec c sep) as [->|N]; [exfalso; apply H; left; reflexivity|].
+  rewrite IH; [reflexivity|]. intros Hi. apply H. right. exact Hi.
+Qed.
+
+(* one token '--o' where o is not a standard option and has no '=':
+   a flag of the parser, a value option (takes the next argument), or an error *)
+Lemma mini_go_opt_step nl F P V o r a :
+  user_flag nl o ->
+  mini_go nl F P V (flag_str o :: r) a =
+  if mem o F then mini_go nl F P V r (push_flag o a)
+  else if mem o V
+       then match r with
+            | y :: r' => if starts_dash y then None else mini_go nl F P V r' (give o y (close_blk a))
+            | [] => None
+            end
+       else None.
+Proof.
+  intros (Hstd & Heq).
   destruct (std_strings_have nl) as (I1 & I2 & I3).
   pose proof (mem_false_each _ _ Hstd) as E.
   assert (strip_prefix (opt_color ++ [ch_eq]) (flag_str o) = None) as Hsp.
-  { destruct (strip_prefix (opt_color ++ [ch_eq]) (flag_str o)) as [r|] eqn:Es; [|reflexivity].
+  { destruct (strip_prefix (opt_color ++ [ch_eq]) (flag_str o)) as [r0|] eqn:Es; [|reflexivity].
     exfalso. apply strip_prefix_some in Es. destruct opt_color_dashes as (w & Ew).
     rewrite Ew in Es. unfold flag_str in Es. cbn [app] in Es. inversion Es as [Eo].
     apply Heq. rewrite Eo. rewrite <- app_assoc. apply in_or_app. right. left. reflexivity. }
@@ -260,27 +284,37 @@ Proof.
     rewrite verbose_letter_not_dash. reflexivity. }
   replace (strip_prefix [ch_dash; ch_dash] (flag_str o)) with (Some o)
     by (symmetry; apply (strip_prefix_app [ch_dash; ch_dash] o)).
-  destruct (mem o F) eqn:Em.
-  - split; [intros _; apply mem_In; exact Em|discriminate].
-  - split; [congruence|]. intros H. apply mem_In in H. congruence.
+  destruct (mem o F); [reflexivity|]. destruct (mem o V); [reflexivity|].
+  rewrite (split_first_absent ch_eq o Heq). reflexivity.
 Qed.
 
-Lemma mini_sub_some nl F P args : mini_sub nl F P args <> None <-> mini_go nl F P args acc0 <> None.
+Lemma mini_go_flag nl F P V o a :
+  mem (flag_str o) (std_option_strings nl) = false -> ~ In ch_eq o ->
+  mini_go nl F P V [flag_str o] a <> None <-> In o F.
 Proof.
-  unfold mini_sub. fold acc0. destruct (mini_go nl F P args acc0); split; congruence.
+  intros Hstd Heq. rewrite (mini_go_opt_step nl F P V o [] a (conj Hstd Heq)).
+  destruct (mem o F) eqn:Em.
+  - split; [intros _; apply mem_In; exact Em|discriminate].
+  - assert ((if mem o V then @None acc else None) = None) as -> by (destruct (mem o V); reflexivity).
+    split; [congruence|]. intros H. apply mem_In in H. congruence.
+Qed.
+
+Lemma mini_sub_some nl F P V args : mini_sub nl F P V args <> None <-> mini_go nl F P V args acc0 <> None.
+Proof.
+  unfold mini_sub. fold acc0. destruct (mini_go nl F P V args acc0); split; congruence.
 Qed.
 
 Lemma mini_sub_spec : sub_spec mini_sub.
 Proof.
   constructor.
-  - intros nl F P o H1 H2. rewrite mini_sub_some. apply mini_go_flag; assumption.
-  - intros nl F P. split; [|split].
+  - intros nl F P V o H1 H2. rewrite mini_sub_some. apply mini_go_flag; assumption.
+  - intros nl F P V. split; [|split].
     + destruct nl; vm_compute; discriminate.
     + destruct nl; vm_compute; discriminate.
     + intros v Hv. unfold color_choices in Hv. cbn [In] in Hv.
       repeat (destruct Hv as [<-|Hv]; [destruct nl; vm_compute; discriminate|]). destruct Hv.
-  - intros F P. split; vm_compute; discriminate.
-  - intros nl F P. vm_compute. discriminate.
+  - intros F P V. split; vm_compute; discriminate.
+  - intros nl F P V. vm_compute. discriminate.
 Qed.
 
 (* obligations on the literals read from the source *)
